@@ -445,6 +445,12 @@ func bodyStoreShape(p *Program, st *ssa.Store) string {
 		if _, isMk := st.Val.(*ssa.MakeSlice); isMk {
 			return "init"
 		}
+		// the element list of a Body object created right here (&Body{Elements: …}): nothing existed
+		if fa, ok := st.Addr.(*ssa.FieldAddr); ok {
+			if _, fresh := stripLoads(fa.X).(*ssa.Alloc); fresh {
+				return "init"
+			}
+		}
 		return "rebuild"
 	}
 	b, ok := c.Call.Value.(*ssa.Builtin)
@@ -473,7 +479,61 @@ func bodyStoreShape(p *Program, st *ssa.Store) string {
 	return "rebuild"
 }
 
+// delegatedRewriter: fn is reachable from a function of the frozen rewriter table and from no
+// exported appending entry point.
+func delegatedRewriter(p *Program, fn *ssa.Function) bool {
+	fromRewriter := false
+	for _, g := range p.ModFuncs() {
+		if _, ok := bodyRewriters[shortName(g)]; ok && g != fn && p.staticReach(g)[fn] {
+			fromRewriter = true
+		}
+	}
+	if !fromRewriter {
+		return false
+	}
+	for _, g := range p.exportedAPI(pkgDoc) {
+		n := g.Name()
+		if (strings.HasPrefix(n, "Add") || strings.HasPrefix(n, "Append") || strings.HasPrefix(n, "Create") || strings.HasPrefix(n, "Insert")) && g != fn && p.staticReach(g)[fn] {
+			return false
+		}
+	}
+	return true
+}
+
+// ruleBodyReplace (part of body-write): Document.Body itself is assigned only by constructors, the
+// reader, clone functions — or as a nil-guarded lazy initialisation.
+func ruleBodyReplace(r *Run) {
+	p := r.P
+	reader := buildReaderModel(p)
+	clones := map[*ssa.Function]bool{}
+	for _, c := range discoverClones(p, pkgDoc) {
+		clones[c.Fn] = true
+	}
+	for _, fn := range p.ModFuncs() {
+		if fn.Pkg == nil || fn.Pkg.Pkg.Path() != pkgDoc {
+			continue
+		}
+		top := topLevel(fn)
+		allInstrs(fn, func(in ssa.Instruction) {
+			st, ok := in.(*ssa.Store)
+			if !ok {
+				return
+			}
+			fv, base := fieldOfAddr(st.Addr)
+			if !fieldIs(p, fv, pkgDoc, "Document", "Body") {
+				return
+			}
+			if _, fresh := stripLoads(base).(*ssa.Alloc); fresh || reader.IsReader[top] || clones[top] || isDocConstructor(top) {
+				return
+			}
+			r.Check("body-write", "replace-body:"+shortName(top), st.Pos(), lazyDefaultStore(fn, fv, st),
+				shortName(top)+" assigns Document.Body of an existing document; allowed only as `if d.Body == nil { d.Body = &Body{…} }` — anything else discards the elements already there")
+		})
+	}
+}
+
 func ruleBodyWrite(r *Run) {
+	ruleBodyReplace(r)
 	p := r.P
 	n := 0
 	shapes := map[string]int{}
@@ -519,10 +579,19 @@ func ruleBodyWrite(r *Run) {
 					}
 				}
 				r.Check("body-write", key, st.Pos(), ok, "removal of exactly one element (append(e[:i], e[i+1:]...)) is reserved to the Remove* functions")
+			case "init":
+				// a fresh list for a fresh Body; replacing the Body of an existing document is decided
+				// by body-replace below
+				r.Check("body-write", key, st.Pos(), true, "initialises the element list of a Body created here")
 			default:
 				_, allowed := bodyRewriters[name]
 				if fn.Signature.Recv() != nil && typeIs(topLevel(fn).Signature.Recv().Type(), pkgDoc, "TemplateEngine") {
 					allowed = true // operates on the clone made for this render (R-RENDER-PURE)
+				}
+				// a function that one of the listed rewriters delegates to (UpdateTOC → UpdateTOCWithConfig)
+				// and that no appending entry point (Add*/Append*/Create*) can reach
+				if !allowed && delegatedRewriter(p, topLevel(fn)) {
+					allowed = true
 				}
 				r.Check("body-write", key, st.Pos(), allowed,
 					fmt.Sprintf("%s changes Body.Elements by %s; only the frozen list of rewriters may do anything but append at the end (an append-style constructor that inserts elsewhere breaks call order)", name, shape))
